@@ -215,3 +215,100 @@ def verifyNsec (q : Name) (qtype : Nat) (soa : Option Name) (rcode : Nat)
 
 end Nsec
 end HickoryVerif
+
+/-! ### Finding classes
+
+`classify` names the known deviation (if any) of `verify_nsec` that an input exercises.  It
+is computed from the input alone, mirrors `classify` of `harness/src/props/c08.rs` (the two
+are compared on every run through the `cls` lines of the correspondence stream), and its
+negation is the hypothesis of `C08.soundness_partial`. -/
+
+namespace HickoryVerif
+namespace Nsec
+
+/-- RFC 4034 §6.1 sort key (same as `Spec.canonKey`; repeated here to keep the model
+independent of `Spec/`). -/
+def nkey (n : Name) : List Bytes := n.labels.reverse.map Name.lowerLabel
+
+/-- `a` is a strict ancestor of `k` (on keys) -/
+def strictlyBelow (a k : List Bytes) : Bool := a.isPrefixOf k && a.length < k.length
+
+/-- length of the longest common prefix of two keys -/
+def lcpLen : List Bytes → List Bytes → Nat
+  | a :: as, b :: bs => if a = b then lcpLen as bs + 1 else 0
+  | _, _ => 0
+
+/-- RFC 6840 §4.1 "ancestor delegation" NSEC: NS bit set, SOA bit clear. -/
+def isDelegation (types : List Nat) : Bool := types.contains TYPE_NS && !types.contains TYPE_SOA
+
+/-- the closest encloser `verify_nsec` computes on its covering path -/
+def codeEncloser (q : Name) (soa : Option Name) (cov : Nsec) : Name :=
+  let nce0 := match soa with
+    | some s => s
+    | none => baseNameT q
+  encloserStep q (encloserStep q nce0 cov.owner) cov.next
+
+def classifyCovered (q : Name) (qtype : Nat) (soa : Option Name) (rcode : Nat)
+    (answers : List Ans) (nsecs : List Nsec) (cov : Nsec) : Option String :=
+  let ko := nkey cov.owner
+  let kn := nkey cov.next
+  let kq := nkey q
+  if isDelegation cov.types && strictlyBelow ko kq then
+    some "ancestor-delegation-nsec-used-below-cut"
+  else if !answers.isEmpty then
+    if strictlyBelow kq kn then some "wildcard-answer-for-empty-non-terminal"
+    else match wildcardBaseName q true answers nsecs with
+      | some wbn =>
+        if max (lcpLen kq ko) (lcpLen kq kn) > wbn.numLabels then
+          some "wildcard-answer-closer-encloser-not-excluded"
+        else none
+      | none => none
+  else
+    let nce := codeEncloser q soa cov
+    let kc := nkey nce
+    if soa.isNone && kc == nkey (baseNameT q) && !kc.isPrefixOf ko && !kc.isPrefixOf kn then
+      some "no-soa-closest-encloser-assumed"
+    else match prependStar nce with
+      | none => none
+      | some w =>
+        let kw := nkey w
+        if rcode == RCODE_NXDOMAIN then
+          if strictlyBelow kq kn then some "nxdomain-for-empty-non-terminal"
+          else match findCovering soa w nsecs with
+            | none => none
+            | some wc =>
+              if isDelegation wc.types && strictlyBelow (nkey wc.owner) kw then
+                some "ancestor-delegation-nsec-used-below-cut"
+              else if strictlyBelow kw (nkey wc.next) then
+                some "nxdomain-with-empty-non-terminal-wildcard"
+              else none
+        else
+          match findCovering soa w nsecs with
+          | some _ => none
+          | none =>
+            if kw.isPrefixOf kq then some "closest-encloser-search-discounts-wildcard-label"
+            else if qtype != TYPE_DS
+                && nsecs.any (fun r => Name.eq r.owner w && isDelegation r.types) then
+              some "ancestor-delegation-nsec-nodata-for-non-ds-type"
+            else if qtype == TYPE_RRSIG || qtype == TYPE_NSEC then
+              some "nsec-rrsig-bits-not-ignored"
+            else none
+
+/-- The known-deviation class of an input (`none`: no known deviation applies). -/
+def classify (q : Name) (qtype : Nat) (soa : Option Name) (rcode : Nat)
+    (answers : List Ans) (nsecs : List Nsec) : Option String :=
+  if rcode != RCODE_NXDOMAIN && rcode != RCODE_NOERROR then none
+  else match nsecs.find? (fun r => Name.eq q r.owner) with
+    | some r =>
+      if isDelegation r.types && qtype != TYPE_DS then
+        some "ancestor-delegation-nsec-nodata-for-non-ds-type"
+      else if qtype == TYPE_RRSIG || qtype == TYPE_NSEC then
+        some "nsec-rrsig-bits-not-ignored"
+      else none
+    | none =>
+      match findCovering soa q nsecs with
+      | none => none
+      | some cov => classifyCovered q qtype soa rcode answers nsecs cov
+
+end Nsec
+end HickoryVerif
